@@ -1,7 +1,71 @@
 # configuration of the C06 check (driver) and its MANIFEST entry
 
 CFG = {
-    'rule': 'placeholder',
-    'tolerances': 'placeholder',
+    'rule': (
+        "Three in-process monitors, every oracle written in Go in harness/c06 (own LU with partial pivoting and refinement, Cholesky, cyclic Jacobi "
+        "eigen/SVD, inverse iteration; no call into the library). "
+        "(a) paths: the same numbers (n = 1..6; SPD with prescribed condition number, integer Gram matrices, indefinite, general with prescribed "
+        "singular values, forced pivot orders, exact zeros, exactly singular, upper triangular) are run through the specialised DenseFloat64 / "
+        "DenseFloat32 path and through every way of reaching the generic path (DenseReal*, SparseFloat*, SparseReal*, InSitu objects whose L / D / S / B "
+        "have another element type, a / x / b of mixed types) of cholesky (plain, LDL, LDL+ForcePD), gaussJordan (plain, UpperTriangular, Submatrix), "
+        "matrixInverse (plain, PositiveDefinite, UpperTriangular), determinant (PositiveDefinite, +LogScale): same outcome (error / panic / ok), same "
+        "nil-ness of optional results, values within the condition-scaled tolerance; saga dense vs sparse gradients (Objective1/2, no / L1 / L2 / "
+        "Tikhonov proximal operator, fixed seed) bit for bit; rprop.RunGradient vs rprop.Run on separable quadratics within the two stopping tolerances. "
+        "(b) identities: Real64 / Real32 inputs with every entry or a random subset activated (order 1 and 2; constants plain or allocated with zero "
+        "derivative; variable indices shuffled; symmetric arguments either with one variable shared by (i,j),(j,i) or with independent variables whose "
+        "gradient / Hessian slots are folded onto symmetric directions; InSitu objects fresh or reused after a call on c*D1*A*D2 with the variable "
+        "assignment permuted, or of the other derivative order) through determinant (cofactor; PositiveDefinite; LogScale), matrixInverse (3 variants), "
+        "gaussJordan (A X = B and A x = b, A, B, b activated), backSubstitution, cholesky (3 variants), MdotM / MdotV / VdotM / Outer / VdotV (dense and "
+        "sparse operands), eigensystem eigenvalues (general and Symmetric), svd singular values: values equal to the float path, first and second "
+        "derivatives equal to the closed forms (A^-T, cofactors and second minors, -A^-1 U A^-1 and its derivative, A^-1(dB - dA X), L Phi(L^-1 U L^-T) "
+        "and its derivative, y^T U x and the second-order perturbation series, u^T U v). "
+        "(c) differential: gramSchmidt, hessenbergReduction, householderTridiagonalization, householderBidiagonalization, qrAlgorithm (default, "
+        "Epsilon=2.2e-16, Symmetric), eigensystem eigenvectors, svd factors, msqrt: derivatives along up to 6 (order 1) / 3 (order 2) activated entries "
+        "against central differences of the routine's own Float64 result, Romberg-extrapolated over three step sizes, used only where the three levels "
+        "agree, the base point lies on the same branch and every stencil point needs the same number of loop iterations (Tick hook). "
+        "(c.helpers) Matrix.Jacobian / Matrix.Hessian of all 18 matrix types on integer polynomial maps (degree 3) at integer points, receiver fresh or "
+        "prefilled, argument vector Real64 / Real32, dense / sparse, plain / carrying derivatives of an earlier computation / of another variable "
+        "count: exact equality. "
+        "A case whose float result violates the routine's defining equation is skipped as value-level-defect (reported by C04/C05). "
+        "non-trivial = judged case (float path succeeded, admissible conditioning); distinct by routine, options, element type, order, activation and "
+        "the input values."
+    ),
+    'tolerances': {
+        'policy': 'condition-scaled (DESIGN.md 2.4); K = 32',
+        'a: value equality across paths': 'K * n * eps_T * kappa * max|result|; kappa = cond2(A) (Jacobi) for Cholesky-based routines, condInf(A) (own LU inverse) for Gauss-Jordan; '
+                                          'not judged (outcome only) for kappa > 1e7 (64 bit) / 1e4 (32 bit), singular and indefinite inputs; ForcePD on indefinite input: element growth max|L|^2/max|A| instead of kappa',
+        'a: saga': 'exact (both paths perform the same float operations; explicit zeros add exactly)',
+        'a: rprop': '2 * epsilon / min q_i (each path stops with |grad| < epsilon, grad_i = q_i (x_i - c_i))',
+        'b: values magic vs float': 'K * dim * eps_T * kappa * scale of the result',
+        'b: first / second derivatives': 'K * dim * eps_T * kappa * S1 * |U|  /  K * dim * eps_T * kappa * S2 * |U| |V| with S1, S2 the norm-wise size of the derivative '
+                                         '(e.g. |A^-1|^2, 2 |A^-1|^3 for the inverse; products of row sums of |A| for cofactors); cases with kappa > 1e6 (Real64) / 1e3 (Real32) are not judged',
+        'b: eigenvalues / singular values': 'max(1e-6, K n eps kappa) of the norm-wise size of the derivative (iterative routines; stated, detects O(1) errors); '
+                                            'relative gaps < 0.02 and eigenvalue condition > 20 are not judged',
+        'c: finite differences': '1e-6 of max(|derivative|, |output|/|input|^k) (stated: detects wrong / missing / stale derivatives); slots whose last two '
+                                 'Romberg levels differ by more than 1e-7 (1e-6 at order 2) of that scale are not judged',
+        'c.helpers': 'exact (small integers)',
+        'value-level admission': 'residual |A X - B| <= 1e-9 (1e-3 in 32 bit) * (|A||X| + |B|); reconstruction / orthogonality to 1e-8; reference values to min(64 * tolerance, 1%)',
+        'failure classes': 'derivative failures of the iterative routines are re-run at 4 inputs within a relative distance of 1e-9: d1:unstable = not reproduced '
+                           'or error < 5%, d1:wrong = reproduced O(1) error, d2:unstable = any second-order failure',
+    },
+    'assumptions': [
+        'routines whose argument is mathematically symmetric may read one triangle only: their identities are asserted on symmetric directions (shared variable or folded slots)',
+        'a derivative failure is reported under the fresh-InSitu signature when the fresh execution shows it too; reuse signatures name reuse-only failures',
+        'InSitu reuse with another NUMBER of variables is not exercised: the library rejects mixing variable counts with a panic by design',
+        'the reference linear algebra of harness/c06/ref.go is trusted to a few n*eps*kappa (refined LU inverse, Jacobi)',
+    ],
+    'min_cov': {},
 }
-META = {'design_ref': 'DESIGN.md section 3, C06', 'note': '', 'technique': '', 'text': ''}
+
+META = {
+    'design_ref': 'DESIGN.md section 3, C06',
+    'technique': 'runtime monitoring: differential execution (specialised vs generic path, magic vs float), in-process analytic oracle (matrix-calculus identities), '
+                 'finite-difference differential against the routine\'s own float result, Tick-hook iteration counts',
+    'note': 'Trusted: harness/c06/ref.go (LU, Cholesky, Jacobi eigen/SVD, inverse iteration) and the closed-form derivative formulas in harness/c06/oracles.go; '
+            'monitor (c) trusts the float path of the routine itself (it detects inconsistent, not jointly wrong, derivatives).',
+    'text': 'Specialised-vs-generic path differential on ~60k (quick) / 1.5M (thorough) inputs over 11 routine/option cells and up to 7 container/InSitu mixes; '
+            'analytic first- and second-derivative identities on ~80k / 2M activated executions of 20 routine cells (Real64 and Real32, full / subset / shared / '
+            'folded activation, fresh and reused InSitu); finite-difference differential on ~16k / 440k executions of 11 cells; Jacobian/Hessian helpers of all 18 '
+            'matrix types on polynomial maps. Held on the executions observed (coverage per cell in the evidence), except for the listed known findings. Not a proof: '
+            'sizes n <= 6, condition numbers <= 1e6, second-order slots sampled (<= 40 pairs per case).',
+}
